@@ -25,7 +25,7 @@ def sh(cmd, cwd, env=None, timeout=1200):
     return p.returncode, p.stdout
 
 
-def evaluate(pid, k, keep, stored=None):
+def evaluate(pid, k, keep, stored=None, reconfirm=True):
     mdir = '/tmp/wt-%s/mutations' % pid
     diff = os.path.join(mdir, 'm%d.diff' % k)
     demo = os.path.join(mdir, 'm%d_demo.rs' % k)
@@ -42,24 +42,34 @@ def evaluate(pid, k, keep, stored=None):
         shutil.copytree('/repo/src', os.path.join(td, 'src'))
         os.makedirs(os.path.join(td, 'tests'))
         shutil.copy(demo, os.path.join(td, 'tests', 'demo.rs'))
-        env = {'CARGO_TARGET_DIR': os.path.join(td, 'target')}
-        rc, out = sh(['cargo', 'test', '--offline', '--test', 'demo'], td, env)
-        res['demo_passes_unmodified'] = rc == 0
-        rc, out = sh(['patch', '-p1', '-s', '-i', diff], td)
-        res['applies'] = rc == 0
-        if rc != 0:
-            res['error'] = out[-400:]
-            return res
-        rc, out = sh(['cargo', 'test', '--offline', '--lib'], td, env)
-        m = re.search(r'test result: (\w+)\. (\d+) passed; (\d+) failed', out)
-        res['lib_tests'] = m.group(0) if m else out[-300:]
-        res['suite_passes'] = rc == 0 and m is not None and m.group(3) == '0' and int(m.group(2)) >= 60
-        rc2, out2 = sh(['cargo', 'test', '--offline', '--doc'], td, env)
-        res['doc_tests_pass'] = rc2 == 0
-        rc3, out3 = sh(['cargo', 'test', '--offline', '--test', 'demo'], td, env)
-        res['demo_fails_with_mutation'] = rc3 != 0 and ('FAILED' in out3 or 'panicked' in out3)
-        shutil.rmtree(os.path.join(td, 'target'), ignore_errors=True)
-        shutil.rmtree(os.path.join(td, 'tests'), ignore_errors=True)
+        if reconfirm:
+            env = {'CARGO_TARGET_DIR': os.path.join(td, 'target')}
+            rc, out = sh(['cargo', 'test', '--offline', '--test', 'demo'], td, env)
+            res['demo_passes_unmodified'] = rc == 0
+            rc, out = sh(['patch', '-p1', '-s', '-i', diff], td)
+            res['applies'] = rc == 0
+            if rc != 0:
+                res['error'] = out[-400:]
+                return res
+            rc, out = sh(['cargo', 'test', '--offline', '--lib'], td, env)
+            m = re.search(r'test result: (\w+)\. (\d+) passed; (\d+) failed', out)
+            res['lib_tests'] = m.group(0) if m else out[-300:]
+            res['suite_passes'] = rc == 0 and m is not None and m.group(3) == '0' and int(m.group(2)) >= 60
+            rc2, out2 = sh(['cargo', 'test', '--offline', '--doc'], td, env)
+            res['doc_tests_pass'] = rc2 == 0
+            rc3, out3 = sh(['cargo', 'test', '--offline', '--test', 'demo'], td, env)
+            res['demo_fails_with_mutation'] = rc3 != 0 and ('FAILED' in out3 or 'panicked' in out3)
+            shutil.rmtree(os.path.join(td, 'target'), ignore_errors=True)
+            shutil.rmtree(os.path.join(td, 'tests'), ignore_errors=True)
+        else:
+            rc, out = sh(['patch', '-p1', '-s', '-i', diff], td)
+            res['applies'] = rc == 0
+            if rc != 0:
+                res['error'] = out[-400:]
+                return res
+            old = json.load(open(os.path.join(stored, 'meta.json')))['confirmed']
+            res.update({'demo_passes_unmodified': old['demo_passes_unmodified'], 'suite_passes': old['compiles_and_suite_passes'],
+                        'doc_tests_pass': old['doc_tests_pass'], 'demo_fails_with_mutation': old['demo_fails_with_mutation']})
         # run every property check on the mutated copy
         det = {}
 
@@ -104,12 +114,17 @@ def evaluate(pid, k, keep, stored=None):
 
 def main_seeded(names):
     sdir = os.path.join(VERIF, 'seeded')
-    names = names or sorted(os.listdir(sdir))
+    reconfirm = '--reconfirm' in names
+    names = [n for n in names if not n.startswith('--')] or sorted(os.listdir(sdir))
     bad = 0
-    for name in names:
+
+    def one(name):
         d = os.path.join(sdir, name)
         pid, k = name.split('-m')
-        r = evaluate(pid, int(k), False, stored=d)
+        return name, evaluate(pid, int(k), False, stored=d, reconfirm=reconfirm)
+    with ThreadPoolExecutor(max_workers=1 if reconfirm else 3) as ex:
+        results = list(ex.map(one, names))
+    for name, r in results:
         own = r.get('own_property_detects')
         print(name, 'confirmed' if r.get('confirmed') else 'NOT-CONFIRMED %s' % {kk: v for kk, v in r.items() if kk in ('demo_passes_unmodified', 'applies', 'suite_passes', 'doc_tests_pass', 'demo_fails_with_mutation', 'error')},
               'own' if own else 'OWN-MISSED', r.get('detected_by'), flush=True)
